@@ -405,6 +405,9 @@ func convTypeToTarget(source interface{}, target reflect.Type) (interface{}, err
 	}
 	switch target.Kind() {
 	case reflect.Interface:
+		if source != nil && !reflect.TypeOf(source).Implements(target) {
+			return nil, fmt.Errorf("convTypeToTarget %T does not implement %v", source, target)
+		}
 		return source, nil
 	case reflect.Array:
 		if source != nil && reflect.TypeOf(source) == target {
